@@ -242,7 +242,7 @@ func checkC06(c *Check) {
 	types4 := []string{"*Notification", "*keepAliveMessage", "*openMessage", "updateMessage"}
 	for _, s := range []struct {
 		state, typ string
-		ret       bool
+		ret        bool
 	}{{"fsm.openConfirm", "*keepAliveMessage", true}, {"fsm.established", "*keepAliveMessage", false}, {"fsm.established", "updateMessage", false}} {
 		sf := p.stateClosure(s.state)
 		if sf == nil {
@@ -400,7 +400,9 @@ func blockTypeSwitchDominated(b *ssa.BasicBlock) bool {
 	for _, x := range fn.Blocks {
 		for _, in := range x.Instrs {
 			if ta, ok := in.(*ssa.TypeAssert); ok {
-				if n, ok := ta.X.Type().(interface{ Obj() interface{ Name() string } }); ok {
+				if n, ok := ta.X.Type().(interface {
+					Obj() interface{ Name() string }
+				}); ok {
 					_ = n
 				}
 				if x.Dominates(b) && typeKey(ta.X.Type()) == "message" {
